@@ -16,7 +16,7 @@ from __future__ import annotations
 import ast
 
 from ..absmachine import AbsMachine, Obj, Outcome, Raise, UNKNOWN, class_isinstance
-from ..astx import call_name, calls, method_name, walk_local
+from ..astx import attr_writes, call_name, call_sites, calls, method_name, walk_local
 from ..cfg import CFG
 from ..exctable import ExcTable
 from ..explore import Explorer
@@ -135,6 +135,79 @@ def table_outgoing(chk: Check, repo: Repo) -> None:
     chk.ob("send-routes-through-outgoing", st.site(), ok, "with Data Secure configured, the frame handed to the interface has had its data replaced by outgoing_cemi(...) on every path", key="send-routes-through-outgoing")
 
 
+def incoming_gate(chk: Check, repo: Repo) -> None:
+    """With Data Secure configured, no received frame reaches `cemi.data.telegram()` / telegram_received without having
+    gone through DataSecure.received_cemi (whatever its source address or other fields): every path from the entry of
+    handle_cemi_frame to the hand-over passes the received_cemi call or a point where `self.data_secure is None` holds."""
+    h = repo.func("xknx.cemi.cemi_handler", "CEMIHandler.handle_cemi_frame")
+    chk.unit(h)
+    cfg = CFG(h.node)
+    mf = cfg.must_facts()
+
+    def has_call(n, pred) -> bool:
+        return n.ast is not None and n.kind in ("stmt", "test", "with") and any(isinstance(x, ast.Call) and pred(call_name(x)) for x in ast.walk(n.ast))
+    targets = [n.id for n in cfg.nodes if has_call(n, lambda nm: nm == "self.telegram_received" or nm.endswith(".data.telegram"))]
+    through = [n.id for n in cfg.nodes if has_call(n, lambda nm: nm.endswith("data_secure.received_cemi"))]
+    unconfigured = [n.id for n in cfg.nodes if any(v and a == "self.data_secure is None" for a, v in mf.get(n.id, frozenset())) or any((not v) and a in ("self.data_secure is not None", "self.data_secure") for a, v in mf.get(n.id, frozenset()))]
+    chk.count("hand-over points in handle_cemi_frame", len(targets))
+    chk.floor("hand-over points in handle_cemi_frame", len(targets), 1)
+    ok = bool(through) and cfg.all_paths_hit(cfg.entry, through + unconfigured, targets)
+    chk.ob("incoming-frame-passes-data-secure-before-hand-over", h.site(), ok, f"handle_cemi_frame: every path to the hand-over ({len(targets)} node(s)) passes `received_cemi` ({len(through)} site(s)) unless Data Secure is not configured" if ok else "handle_cemi_frame: a path reaches cemi.data.telegram() / telegram_received with Data Secure configured and without calling DataSecure.received_cemi — a plain frame to a keyed group address on that path is delivered", key="gate|incoming")
+
+
+def configuration_wiring(chk: Check, repo: Repo) -> None:
+    """Data Secure cannot silently stay off: (1) the handler's `data_secure` slot is written only by its constructor
+    (None) and data_secure_init, which installs DataSecure.init_from_keyring(keyring) for every keyring; (2) every call
+    of data_secure_init lets its DataSecureError propagate (no enclosing handler swallows it) and, in
+    KNXIPInterface._start, precedes every connection start on all paths — so a failed initialisation stops the start
+    instead of bringing the connection up with plain group communication."""
+    hcls = repo.cls("xknx.cemi.cemi_handler", "CEMIHandler")
+    ws = [w for w in attr_writes(repo, "data_secure", include_mutators=False) if (w.receiver == "self" and w.func.cls is hcls) or w.receiver.endswith("cemi_handler")]
+    owners = sorted({w.func.qualname for w in ws})
+    chk.ob("data-secure-slot-written-only-by-init", f"{hcls.module.relpath}:{hcls.node.lineno}:{hcls.name}", set(owners) <= {"CEMIHandler.__init__", "CEMIHandler.data_secure_init"} and "CEMIHandler.data_secure_init" in owners, f"`data_secure` is assigned in {owners}", key="wiring|slot-writers")
+    di = repo.func("xknx.cemi.cemi_handler", "CEMIHandler.data_secure_init")
+    chk.unit(di)
+    cfg = CFG(di.node)
+    mf = cfg.must_facts()
+    kp = di.node.args.args[1].arg
+    good = True
+    seen = 0
+    for n in cfg.nodes:
+        if n.kind == "stmt" and isinstance(n.ast, ast.Assign) and ast.unparse(n.ast.targets[0]) == "self.data_secure":
+            seen += 1
+            v = n.ast.value
+            none_branch = any((val and a == f"{kp} is None") or ((not val) and a in (f"{kp} is not None", kp)) for a, val in mf[n.id])
+            if isinstance(v, ast.Constant) and v.value is None:
+                good = good and none_branch
+            else:
+                good = good and isinstance(v, ast.Call) and call_name(v) == "DataSecure.init_from_keyring" and [ast.unparse(a) for a in v.args] + [ast.unparse(k.value) for k in v.keywords] == [kp]
+    chk.ob("keyring-always-installs-data-secure", di.site(), good and seen >= 2 and cfg.all_paths_hit(cfg.entry, [n.id for n in cfg.nodes if n.kind == "stmt" and isinstance(n.ast, ast.Assign) and ast.unparse(n.ast.targets[0]) == "self.data_secure"], [cfg.exit], edge_ok=cfg.normal_only), "data_secure_init: None only without a keyring, otherwise DataSecure.init_from_keyring(keyring); assigned on every normal path", key="wiring|init")
+    n_sites = 0
+    for f, c in call_sites(repo, "data_secure_init"):
+        if f.module.name.startswith("xknx.") is False:
+            continue
+        n_sites += 1
+        swallowing = []
+        for t in walk_local(f.node):
+            if isinstance(t, ast.Try) and any(x is c for b in t.body for x in ast.walk(b)):
+                for hd in t.handlers:
+                    names = [ast.unparse(x) for x in (hd.type.elts if isinstance(hd.type, ast.Tuple) else [hd.type])] if hd.type is not None else ["BaseException"]
+                    if any(nm.split(".")[-1] in ("DataSecureError", "XKNXException", "Exception", "BaseException") for nm in names) and not isinstance(hd.body[-1], ast.Raise):
+                        swallowing.append(", ".join(names))
+        chk.ob("data-secure-init-failure-propagates", f.site(c), not swallowing, f"{f.qualname}: `{ast.unparse(c)[:60]}`" + (f" is inside `except {swallowing[0]}` that does not re-raise: a failed initialisation leaves Data Secure off and the caller carries on" if swallowing else " — a DataSecureError leaves the caller"), key=f"wiring|propagate|{f.qualname}")
+    chk.count("data_secure_init call sites", n_sites)
+    chk.floor("data_secure_init call sites", n_sites, 1)
+    st = repo.func("xknx.io.knxip_interface", "KNXIPInterface._start")
+    chk.unit(st)
+    cfg = CFG(st.node)
+    inits = [n.id for n in cfg.nodes if n.ast is not None and n.kind == "stmt" and any(isinstance(x, ast.Call) and call_name(x).endswith(".data_secure_init") for x in ast.walk(n.ast))]
+    starts = [n.id for n in cfg.nodes if n.ast is not None and n.kind == "stmt" and any(isinstance(x, ast.Call) and call_name(x).startswith("self._start_") for x in ast.walk(n.ast))]
+    chk.count("connection start sites in _start", len(starts))
+    chk.floor("connection start sites in _start", len(starts), 4)
+    ok = bool(inits) and cfg.all_paths_hit(cfg.entry, inits, starts, edge_ok=cfg.normal_only)
+    chk.ob("data-secure-initialised-before-any-connection-start", st.site(), ok, f"KNXIPInterface._start: every path to one of the {len(starts)} connection starts passes data_secure_init (normal completion)", key="wiring|order")
+
+
 def check_key_issue(chk: Check, repo: Repo) -> None:
     h = repo.func("xknx.cemi.cemi_handler", "CEMIHandler.handle_data_secure_key_issue")
     chk.unit(h)
@@ -165,6 +238,8 @@ def run(chk: Check, repo: Repo) -> None:
     table_received(chk, repo)
     table_outgoing(chk, repo)
     check_key_issue(chk, repo)
+    incoming_gate(chk, repo)
+    configuration_wiring(chk, repo)
     chk.rule("E7 decision tables of DataSecure.received_cemi (over every APCI payload class) and outgoing_cemi; E4 must-pass-through of outgoing_cemi in send_telegram; E5 callee census of the key-issue path")
     try:
         from .c18_noraise import check_no_raise
